@@ -194,8 +194,8 @@ package server
 //@   ensures C01.grant.depth,C02.grant.depth,C17.grant.depth: lock.locked == 1 && result == lock
 //@   ensures lock.refCount == u8(old(lock.refCount) + 1)
 //@   ensures C01.grant.oldest: self.currentLock == ite(old(self.currentLock) == nil, lock, old(self.currentLock))
-//@   ensures C06.grant.not-early: implies(lock.command.TimeoutFlag&0x0100 == 0 && lock.command.ExpriedFlag&0x4000 == 0 && clockSane(self.lockDb), notEarly(lock.expriedTime, self.lockDb.currentTime, lock.command.Expried, lock.command.ExpriedFlag))
-//@   ensures C06.grant.deadline: implies(lock.command.TimeoutFlag&0x0100 == 0, lock.startTime == self.lockDb.currentTime && lock.expriedTime == i64(expriedDeadline(self.lockDb.currentTime, lock.command)))
+//@   ensures C06.grant.not-early,C19.grant.not-early: implies(lock.command.TimeoutFlag&0x0100 == 0 && lock.command.ExpriedFlag&0x4000 == 0 && clockSane(self.lockDb), notEarly(lock.expriedTime, self.lockDb.currentTime, lock.command.Expried, lock.command.ExpriedFlag))
+//@   ensures C06.grant.deadline,C19.grant.deadline: implies(lock.command.TimeoutFlag&0x0100 == 0, lock.startTime == self.lockDb.currentTime && lock.expriedTime == i64(expriedDeadline(self.lockDb.currentTime, lock.command)))
 //@   ensures C06.grant.unrenew: implies(lock.command.TimeoutFlag&0x0100 != 0, lock.startTime == old(lock.startTime) && lock.expriedTime == old(lock.expriedTime))
 //@   ensures C07.grant.aoftime: implies(old(self.currentLock) == nil && lock.command.ExpriedFlag&0x1300 == 0x0100, lock.aofTime == 0) && implies(old(self.currentLock) == nil && lock.command.ExpriedFlag&0x1300 == 0x0200, lock.aofTime == 0xff) && implies(old(self.currentLock) != nil, lock.aofTime == old(self.currentLock.aofTime))
 //@   ensures C11.grant.ack: lock.ackCount == ite(lock.command.Flag&0x04 == 0 && lock.command.TimeoutFlag&0x1000 != 0, 0, old(lock.ackCount))
@@ -205,8 +205,8 @@ package server
 
 //@ func (*LockManager).RemoveLock
 //@   requires self != nil && lock != nil && self.freeLocks != nil
-//@   at call LockManagerLockQueue.RemoveLock assert C02.release.unindex: implies(old(self.currentLock) != lock, arg1 == lock.command)
-//@   ensures C02.release.unindexed: implies(old(self.currentLock) != lock && old(self.locks) != nil, calls(LockManagerLockQueue.RemoveLock) == 1)
+//@   at call LockManagerLockQueue.RemoveLock assert C02.release.unindex,C01.release.unindex: implies(old(self.currentLock) != lock, arg1 == lock.command)
+//@   ensures C02.release.unindexed,C01.release.unindexed: implies(old(self.currentLock) != lock && old(self.locks) != nil, calls(LockManagerLockQueue.RemoveLock) == 1)
 //@   ensures C02.release.depth,C01.release.depth: lock.locked == 0 && lock.ackCount == 0xff && result == lock
 //@   ensures C01.release.oldest: implies(old(self.currentLock) != lock, self.currentLock == old(self.currentLock))
 //@   ensures C01.release.next: implies(old(self.currentLock) == lock && self.currentLock != nil, self.currentLock.locked > 0)
@@ -1131,8 +1131,8 @@ package server
 //@   at call Unlock assert C09.handover.order: implies(arg0 == self.aofGlock && calls(WriteLock) == 1, calls(Lock) == 2)
 //@   at call ReplicationManager.PushLock assert C09.handover.publish: calls(WriteLock) == 1 && calls(Lock) == 2 && calls(Unlock) == 1 && arg2 == aofLock
 //@   requires self != nil && aofLock != nil
-//@   at call WriteLockData assert C07.value.samefile: calls(WriteLock) == 1 && calls(RewriteAofFile) <= ite(old(self.aofFile) == nil, 1, 0)
-//@   at call RewriteAofFile#2 assert C07.value.written: calls(WriteLock) == 1 && implies(aofLock.AofFlag&0x2000 != 0 && isnil(werr), calls(WriteLockData) == 1)
+//@   at call WriteLockData assert C07.value.samefile,C08.value.samefile: calls(WriteLock) == 1 && calls(RewriteAofFile) <= ite(old(self.aofFile) == nil, 1, 0)
+//@   at call RewriteAofFile#2 assert C07.value.written,C08.value.written: calls(WriteLock) == 1 && implies(aofLock.AofFlag&0x2000 != 0 && isnil(werr), calls(WriteLockData) == 1)
 //@   modifies all
 // flushing acknowledges waiting requests through the lock engine and rotation rewrites files: both are
 // outside the ordering argument of PushLock and are cut here
@@ -1150,7 +1150,7 @@ package server
 // =====================================================================================================
 //@ func (*Aof).findRewriteAofFiles
 //@   requires self != nil
-//@   at call append#2 assert C16.find.notcurrent: u32(aofFileIndex) != self.aofFileIndex && implies(u32(aofFileIndex) > self.aofFileIndex, u32(aofFileIndex) - self.aofFileIndex >= 0x7fffffff)
+//@   at call append#2 assert C16.find.notcurrent,C08.find.notcurrent: u32(aofFileIndex) != self.aofFileIndex && implies(u32(aofFileIndex) > self.aofFileIndex, u32(aofFileIndex) - self.aofFileIndex >= 0x7fffffff)
 //@   modifies all
 
 //@ func (*Aof).loadRewriteAofFiles$1
